@@ -67,6 +67,21 @@ theorem construction_form_independent (tol : ℚ) (pts : List (ℚ × ℚ)) (h :
     GenQ.Interpolation.set tol [.interp o] = .ok o :=
   ⟨set_varargs tol pts h, set_varargs_odd tol pts h z, rfl⟩
 
+/-- The one-list form `Interpolation([y0, y1, …])` is the two-list form with the abscissae `0, 1, 2, …`. -/
+theorem single_list_form (tol : ℚ) (ys : List ℚ) :
+    GenQ.Interpolation.set tol [.list ys]
+      = GenQ.Interpolation.set tol [.list ((List.range ys.length).map (fun (i : ℕ) => ((i : ℤ) : ℚ))), .list ys] := by
+  rw [set_two_lists]
+  simp only [GenQ.Interpolation.set, set1, List.length_map, List.length_range, Nat.min_self, List.take_length, ofInt]
+  rw [List.take_of_length_le (by simp)]
+
+/-- Lists of unequal length: the longer one is cut to the length of the shorter one. -/
+theorem unequal_lengths_truncated (tol : ℚ) (xs ys : List ℚ) :
+    GenQ.Interpolation.set tol [.list xs, .list ys]
+      = GenQ.Interpolation.set tol [.list (xs.take (min xs.length ys.length)), .list (ys.take (min xs.length ys.length))] := by
+  rw [set_two_lists, set_two_lists]
+  simp [List.take_take]
+
 /-! ### The interpolant passes through every point and reproduces polynomials -/
 
 /-- "The interpolating polynomial through n tabulated points passes through every point": for the Newton form
@@ -280,6 +295,67 @@ theorem root_post_default (xs ys : List ℚ) (o : Interp) (v : ℚ) (m : Int)
   rw [htol] at hyt
   exact ⟨⟨hA ▸ r1, hB ▸ r2⟩, y, hy, hyt⟩
 
+/-- Which exception `root` raises when: limits closer than the tolerance are refused with ValueError. -/
+theorem root_refuses_equal_limits (xs ys : List ℚ) (o : Interp) (xl xh : ℚ) (m : Int)
+    (hset : GenQ.Interpolation.set TOL [.list xs, .list ys] = .ok o)
+    (hnd : ¬ (xl = 0 ∧ xh = 0)) (hc : |xl - xh| < TOL) :
+    root o xl xh m = .error .valueError := by
+  obtain ⟨wf, htol, _, _⟩ := set_two_lists_ok TOL_pos TOL_le_one hset
+  have hx : o.x ≠ [] := by intro e; have := wf.two; rw [e] at this; simp at this
+  unfold root
+  rw [root_limits_equal hx hnd (by rw [htol]; exact hc)]
+  rfl
+
+/-- What `root` does at its (clamped) limits `A ≤ B`, before iterating: a limit at which the interpolant is within
+    the tolerance is returned (the lower one first); if the interpolant has the same sign at both limits the
+    interval is refused with ValueError ("Probably no root exists"). -/
+theorem root_at_limits (o : Interp) (xl xh A B yl yh : ℚ) (m : Int)
+    (hlim : root_limits o xl xh = .ok (A, B)) (hyl : call o A = .ok yl) (hyh : call o B = .ok yh) :
+    (|yl| < o.tol → root o xl xh m = .ok A) ∧
+    (¬ |yl| < o.tol → |yh| < o.tol → root o xl xh m = .ok B) ∧
+    (¬ |yl| < o.tol → ¬ |yh| < o.tol → 0 < yl * yh → root o xl xh m = .error .valueError) :=
+  root_entry m hlim hyl hyh
+
+/-- Which exception `root` raises: on a constructed object, for limits whose interval meets the table, `root` returns
+    an abscissa or raises ValueError ("limits equal", "no root", "too many iterations") — never ZeroDivisionError
+    (the slopes it divides by are ≥ 1e-3, the false-position denominator has opposite-sign terms), never an
+    out-of-table evaluation, never an exhausted loop. -/
+theorem root_returns_or_valueError (xs ys : List ℚ) (o : Interp) (xl xh : ℚ) (m : Int)
+    (hset : GenQ.Interpolation.set TOL [.list xs, .list ys] = .ok o)
+    (hnd : ¬ (xl = 0 ∧ xh = 0))
+    (hmeet : max (min xl xh) (xfirst o) ≤ min (max xl xh) (xlast o)) :
+    (∃ v, root o xl xh m = .ok v) ∨ root o xl xh m = .error .valueError := by
+  obtain ⟨wf, htol, _, _⟩ := set_two_lists_ok TOL_pos TOL_le_one hset
+  have hx : o.x ≠ [] := by intro e; have := wf.two; rw [e] at this; simp at this
+  by_cases hc : |xl - xh| < o.tol
+  · right
+    unfold root
+    rw [root_limits_equal hx hnd hc]
+    rfl
+  · cases hlim : root_limits o xl xh with
+    | error e =>
+      -- the only refusal of `root_limits` on a non-empty table is the one excluded by `hc`
+      exfalso
+      unfold root_limits at hlim
+      cases hxs : o.x with
+      | nil => exact hx hxs
+      | cons x0 xr =>
+        rw [hxs] at hlim
+        simp only at hlim
+        have c : (peq xl 0 && peq xh 0) = false := by
+          simp only [peq, Bool.and_eq_false_iff, decide_eq_false_iff_not]
+          by_cases hxl : xl = 0
+          · right; exact fun e => hnd ⟨hxl, e⟩
+          · left; exact hxl
+        rw [c] at hlim
+        simp only [Bool.false_eq_true, if_false, plt, pabs_eq, hc, decide_false] at hlim
+        cases hlim
+    | ok p =>
+      obtain ⟨A, B⟩ := p
+      obtain ⟨hA, hB⟩ := (root_limits_spec wf hlim).2 hnd
+      exact root_total_core wf (by rw [htol]; exact TOL_pos) m hlim (by rw [hA, hB]; exact hmeet)
+        (by rw [hA]; exact le_max_right _ _) (by rw [hB]; exact min_le_right _ _)
+
 /-- Termination of the iteration: the loop of `root` (any object, any start state with `num_iter = 0`) ends within
     `max_iter + 1` passes — by its exit test `abs(y) <= tol` or by ValueError('Too many iterations'); the model's
     fuel is never exhausted. -/
@@ -382,6 +458,54 @@ theorem conjunction_post (a1 d1 a2 d2 : List ℚ) (n0 dd : ℚ)
             exact ⟨_, _, _, ia, id, hia, hid, (root_post_default _ _ ia r 1000 hia hr).1,
               (root_post_default _ _ ia r 1000 hia hr).2, hv⟩
 
+/-- The time returned by `planetary_conjunction` lies in the table of times `-h, …, n-1-h` (`n` entries used: all
+    of them, or all but the last when their number is even; `h = n / 2`). -/
+theorem conjunction_time_window (a1 d1 a2 d2 : List ℚ) (n0 dd : ℚ)
+    (h : planetary_conjunction a1 d1 a2 d2 = .ok (n0, dd)) :
+    ∃ n : ℕ, (n = a1.length ∨ n = a1.length - 1) ∧ 3 ≤ n + 1 ∧
+      (((0 : ℤ) - ((n / 2 : ℕ) : ℤ) : ℤ) : ℚ) ≤ n0 ∧ n0 ≤ ((((n - 1 : ℕ) : ℤ) - ((n / 2 : ℕ) : ℤ) : ℤ) : ℚ) := by
+  have key : ∀ (b1 b2 : List ℚ) (ia : Interp) (r : ℚ), b1.length = b2.length → 2 ≤ b1.length →
+      GenQ.Interpolation.set TOL [.list (times b1.length ((b1.length / 2 : ℕ) : ℤ)),
+        .list (List.zipWith (fun a b => a - b) b1 b2)] = .ok ia →
+      root ia 0 0 1000 = .ok r →
+      (((0 : ℤ) - ((b1.length / 2 : ℕ) : ℤ) : ℤ) : ℚ) ≤ r ∧
+        r ≤ ((((b1.length - 1 : ℕ) : ℤ) - ((b1.length / 2 : ℕ) : ℤ) : ℤ) : ℚ) := by
+    intro b1 b2 ia r hl h2 hia hr
+    have hx : ia.x = times b1.length ((b1.length / 2 : ℕ) : ℤ) :=
+      set_sorted_keeps_x TOL_pos TOL_le_one (times_sorted _ _) (by simp [times, hl]) hia
+    obtain ⟨⟨r1, r2⟩, _⟩ := root_post_default _ _ ia r 1000 hia hr
+    have hlen : ia.x.length = b1.length := by rw [hx]; simp [times]
+    have f : xfirst ia = (((0 : ℤ) - ((b1.length / 2 : ℕ) : ℤ) : ℤ) : ℚ) := by
+      unfold xfirst; rw [hx, nodes_times _ (by omega)]; norm_num
+    have l : xlast ia = ((((b1.length - 1 : ℕ) : ℤ) - ((b1.length / 2 : ℕ) : ℤ) : ℤ) : ℚ) := by
+      unfold xlast; rw [hlen, hx, nodes_times _ (by omega)]
+    rw [f] at r1; rw [l] at r2
+    exact ⟨r1, r2⟩
+  unfold planetary_conjunction at h
+  split_ifs at h with g1 g2 g3
+  all_goals
+    simp only [bind, Except.bind] at h
+    split at h
+    · cases h
+    · rename_i ia hia
+      split at h
+      · cases h
+      · rename_i id hid
+        split at h
+        · cases h
+        · rename_i r hr
+          split at h
+          · cases h
+          · rename_i v hv
+            simp only [pure, Except.pure] at h
+            injection h with h
+            injection h with e1 e2
+            subst e1
+            first
+              | exact ⟨a1.dropLast.length, Or.inr (by simp), by simp; omega,
+                  key a1.dropLast a2.dropLast ia r (by simp; omega) (by simp; omega) hia hr⟩
+              | exact ⟨a1.length, Or.inl rfl, by omega, key a1 a2 ia r (by omega) (by omega) hia hr⟩
+
 /-! ### Non-vacuity: concrete tables satisfy the hypotheses used above -/
 
 example : (GenQ.Interpolation.set TOL [.list [3, 1, 2], .list [9, 1, 4]]).map (fun o => (o.x, o.y, o.table))
@@ -395,6 +519,10 @@ example : (GenQ.Interpolation.set TOL [.list [0, 1, 2], .list [-1, 1, 3]] >>= fu
 example : (GenQ.Interpolation.set TOL [.list [0, 1, 2], .list [3, 0, 1]] >>= fun o => minmax o (1 / 2) 2 5)
     = .ok (5 / 4) := by decide +kernel
 example : planetary_conjunction [10, 11, 12] [5, 6, 7] [12, 11, 10] [1, 1, 1] = .ok (0, 5) := by decide +kernel
+example : (GenQ.Interpolation.set TOL [.list [0, 1, 2], .list [3, 1, 2]] >>= fun o => root o 0 2 5)
+    = .error .valueError := by decide +kernel   -- no sign change
+example : (GenQ.Interpolation.set TOL [.list [0, 1, 2], .list [3, 0, 1]] >>= fun o => root o (1 / 2) 1 5)
+    = .ok 1 := by decide +kernel                 -- the upper limit is a root
 example : (GenQ.Interpolation.set TOL [.list [0, 1, 2], .list [3, 0, 1]] >>= fun o => call o 3)
     = .error .valueError := by decide +kernel
 
